@@ -353,7 +353,7 @@ type typedPoolCase struct {
 }
 
 func genTypedPool(s core.Source) typedPoolCase {
-	c := typedPoolCase{Type: core.Pick(s, []string{"[]int", "map[string]int", "[][]int", "[]string", "map[int][]int", "map[int]int/large", "map[int]int/large", "[]float64",
+	c := typedPoolCase{Type: core.Pick(s, []string{"[][]int/shared-backing", "[]int", "map[string]int", "[][]int", "[]string", "map[int][]int", "map[int]int/large", "map[int]int/large", "[]float64",
 		"[]MapLike", "List[MapLike]", "map[string]MapLike", "[]ListLike", "[]Sequential/Set", "Association[string,MapLike]"}, "type")}
 	if c.Type == "map[int]int/large" {
 		// maps with up to 70 keys (the collator sorts the keys of a map before it ranks): a base map, a copy,
@@ -502,6 +502,24 @@ func execTypedPool(prop string) func(typedPoolCase, core.Source) core.Result {
 			}
 			// the codes are ordered like the strings they stand for
 			v, distinct = typedAxioms(prop, c.Type, vals, func(i, j int) int { return cmpIntSlices(c.Codes[i], c.Codes[j]) })
+		case "[][]int/shared-backing":
+			// the inner slices of one value are windows of one backing array (prefixes of a growing journal, an
+			// empty tail and the whole): two windows that start at the same address are different values when
+			// their lengths differ
+			vals := make([][][]int, len(c.Codes))
+			flat := make([][]int, len(c.Codes))
+			for i, code := range c.Codes {
+				backing := append([]int{}, code...)
+				vals[i] = [][]int{}
+				for k := 0; k <= len(backing); k++ {
+					vals[i] = append(vals[i], backing[:k])
+					flat[i] = append(flat[i], -1)
+					flat[i] = append(flat[i], backing[:k]...)
+				}
+				vals[i] = append(vals[i], backing[len(backing):], backing)
+				flat[i] = append(append(flat[i], -1, -1), backing...)
+			}
+			v, distinct = typedAxioms(prop, "[][]int", vals, func(i, j int) int { return cmpNested(vals[i], vals[j]) })
 		case "[][]int":
 			vals := make([][][]int, len(c.Codes))
 			for i, code := range c.Codes {
@@ -654,4 +672,20 @@ func execTypedPool(prop string) func(typedPoolCase, core.Source) core.Result {
 		res.Classes = append(res.Classes, "type-"+c.Type)
 		return
 	}
+}
+
+// cmpNested compares two slices of int slices lexicographically, a proper prefix first at both levels
+func cmpNested(a, b [][]int) int {
+	for i := 0; i < len(a) && i < len(b); i++ {
+		if c := cmpIntSlices(a[i], b[i]); c != 0 {
+			return c
+		}
+	}
+	switch {
+	case len(a) < len(b):
+		return -1
+	case len(a) > len(b):
+		return 1
+	}
+	return 0
 }
